@@ -16,33 +16,94 @@ package trie
 //@   requires t != nil
 //@   requires forall x ref, k int :: has(x.m, k) ==> x.m[k] != nil
 //@   ensures len(b) == 0 ==> result
+// functional (C15): Has(b) is true exactly when the bytes of b can be followed from the root (chain, specs/35trie.spec)
+//@   let H := heaphas(t.m)
+//@   let V := heapval(t.m)
+//@   let B := rawarr(old(b))
+//@   let O := offset(old(b))
+//@   let N := len(old(b))
+//@   ensures @C15 result <==> chain(H, V, t, B, O, N)
 //@   loop 1
+//@     let i := N - len(b)
 //@     invariant cur != nil && len(b) <= len(old(b))
+//@     invariant @C15 rawarr(b) == B && offset(b) == O + i && mark(O + i)
+//@     invariant @C15 chain(H, V, t, B, O, N) <==> chain(H, V, cur, B, O + i, N - i)
 //@     decreases len(b)
 
 //@ func Trie.Add
 //@   props C15
-//@   thin
-//@   requires t != nil
+//@   requires t != nil && t <= alloc
 //@   requires forall x ref :: x != nil ==> !isnil(x.m)
+//@   requires forall x ref, k int :: has(x.m, k) ==> x.m[k] != nil
+//@   requires closed(heaphas(t.m), heapval(t.m), alloc)
 //@   modifies-heap github.com/fluhus/biostuff/trie.Trie.m
+// functional (C15): afterwards the bytes of b can be followed from the root (so Has(b) and Has of every prefix hold), and Add
+// only ever adds children: every child link of a live node still exists and leads to the same node - hence (lemma chainMono)
+// every sequence that could be followed before can still be followed; the heap stays closed
+//@   let H0 := old(heaphas(t.m))
+//@   let V0 := old(heapval(t.m))
+//@   let A0 := old(alloc)
+//@   let B := rawarr(old(b))
+//@   let O := offset(old(b))
+//@   let N := len(old(b))
+//@   ensures @C15 chain(heaphas(t.m), heapval(t.m), t, B, O, N)
+//@   ensures @C15 forall x int, c int :: {H0[x][c]} 0 < x && x <= A0 && H0[x][c] ==> heaphas(t.m)[x][c] && heapval(t.m)[x][c] == V0[x][c]
+//@   ensures alloc >= A0 && closed(heaphas(t.m), heapval(t.m), alloc)
+//@   ensures forall x ref :: x != nil ==> !isnil(x.m)
+//@   ensures forall x ref, k int :: has(x.m, k) ==> x.m[k] != nil
 //@   loop 1
-//@     invariant cur != nil && !isnil(cur.m)
+//@     let i := N - len(b)
+//@     invariant cur != nil && cur <= alloc && !isnil(cur.m) && len(b) <= N && alloc >= A0
 //@     invariant forall x ref :: x != nil ==> !isnil(x.m)
+//@     invariant forall x ref, k int :: has(x.m, k) ==> x.m[k] != nil
+//@     invariant closed(heaphas(t.m), heapval(t.m), alloc)
+//@     invariant @C15 rawarr(b) == B && offset(b) == O + i && mark(O) && mark(O + i) && mark(i)
+//@     invariant @C15 forall x int, c int :: {H0[x][c]} 0 < x && x <= A0 && H0[x][c] ==> heaphas(t.m)[x][c] && heapval(t.m)[x][c] == V0[x][c]
+//@     invariant @C15 chain(heaphas(t.m), heapval(t.m), t, B, O, i) && walk(heaphas(t.m), heapval(t.m), t, B, O, i) == cur
 //@     decreases len(b)
 
 //@ func Trie.Delete
 //@   props C15
-//@   thin
-//@   requires t != nil
+//@   requires t != nil && t <= alloc
+//@   requires forall x ref :: x != nil ==> !isnil(x.m)
 //@   requires forall x ref, k int :: has(x.m, k) ==> x.m[k] != nil
+//@   requires closed(heaphas(t.m), heapval(t.m), alloc)
 //@   modifies-heap github.com/fluhus/biostuff/trie.Trie.m
+// functional (C15): Delete returns what Has(b) was; it only ever removes children (every child link that exists afterwards
+// existed before and leads to the same node - so nothing that could not be followed before can be followed now); and after a
+// successful Delete of a non-empty b, b itself can no longer be followed
+//@   let H0 := old(heaphas(t.m))
+//@   let V0 := old(heapval(t.m))
+//@   let A0 := old(alloc)
+//@   let B := rawarr(old(b))
+//@   let O := offset(old(b))
+//@   let N := len(old(b))
+//@   let H1 := heaphas(t.m)
+//@   let V1 := heapval(t.m)
+//@   use-lemma N > 0 && chain(H1, V1, t, B, O, N) ==> chainLast(H1, V1, t, B, O, N)
+//@   use-lemma N > 0 && chain(H1, V1, t, B, O, N - 1) ==> chainMono(H1, V1, H0, V0, A0, t, B, O, N - 1)
+//@   ensures @C15 result <==> chain(H0, V0, t, B, O, N)
+//@   ensures @C15 forall x int, c int :: {H1[x][c]} 0 < x && x <= A0 && H1[x][c] ==> H0[x][c] && V1[x][c] == V0[x][c]
+//@   ensures @C15 result && N > 0 ==> !chain(H1, V1, t, B, O, N)
+//@   ensures alloc == A0 && closed(H1, V1, alloc)
+//@   ensures forall x ref :: x != nil ==> !isnil(x.m)
+//@   ensures forall x ref, k int :: has(x.m, k) ==> x.m[k] != nil
 //@   loop 1
-//@     invariant cur != nil && len(stack) == len(b)
-//@     invariant forall j int :: 0 <= j && j < i ==> stack[j] != nil
+//@     invariant cur != nil && cur <= alloc && len(stack) == len(b) && len(b) == N && rawarr(b) == B && offset(b) == O
+//@     invariant heaphas(t.m) == H0 && heapval(t.m) == V0 && alloc == A0
+//@     invariant forall j int :: {stack[j]} 0 <= j && j < i ==> stack[j] != nil && stack[j] <= alloc && stack[j] == walk(H0, V0, t, B, O, j)
+//@     invariant @C15 mark(O) && mark(O + i) && mark(i)
+//@     invariant @C15 chain(H0, V0, t, B, O, i) && walk(H0, V0, t, B, O, i) == cur
+//@     invariant @C15 chain(H0, V0, t, B, O, N) <==> chain(H0, V0, cur, B, O + i, N - i)
 //@   loop 2
-//@     invariant len(stack) == len(b) && 0-1 <= i && i < len(stack)
-//@     invariant forall j int :: 0 <= j && j < len(stack) ==> stack[j] != nil
+//@     invariant len(stack) == len(b) && len(b) == N && 0-1 <= i && i < len(stack) && rawarr(b) == B && offset(b) == O && alloc == A0
+//@     invariant forall j int :: {stack[j]} 0 <= j && j < len(stack) ==> stack[j] != nil && stack[j] <= alloc && stack[j] == walk(H0, V0, t, B, O, j)
+//@     invariant forall x ref :: x != nil ==> !isnil(x.m)
+//@     invariant forall x ref, k int :: has(x.m, k) ==> x.m[k] != nil
+//@     invariant closed(heaphas(t.m), heapval(t.m), alloc)
+//@     invariant @C15 forall x int, c int :: {heaphas(t.m)[x][c]} 0 < x && x <= A0 && heaphas(t.m)[x][c] ==> H0[x][c] && heapval(t.m)[x][c] == V0[x][c]
+//@     invariant @C15 i < N - 1 ==> !heaphas(t.m)[stack[N - 1]][B[O + N - 1]]
+//@     decreases i + 1
 
 //@ func Trie.keys
 //@   props C15 C18
